@@ -28,11 +28,11 @@ import (
 	"github.com/gr33nbl00d/caddy-revocation-validator/crl/crlreader"
 	"github.com/gr33nbl00d/caddy-revocation-validator/crl/crlrepository"
 	"github.com/gr33nbl00d/caddy-revocation-validator/crl/crlstore"
-	"go.uber.org/zap"
 
 	"verif/harness/lab/crlgen"
 	"verif/harness/lab/der"
 	"verif/harness/lab/gen"
+	"verif/harness/lab/l2"
 	"verif/harness/lab/origin"
 	"verif/harness/lab/pki"
 	"verif/harness/lab/report"
@@ -63,9 +63,9 @@ type result struct {
 
 type nullProc struct{ n int }
 
-func (p *nullProc) StartUpdateCrl(*crlreader.CRLMetaInfo) error                   { return nil }
-func (p *nullProc) InsertRevokedCertificate(*crlreader.CRLEntry) error            { p.n++; return nil }
-func (p *nullProc) UpdateExtendedMetaInfo(*crlreader.ExtendedCRLMetaInfo) error   { return nil }
+func (p *nullProc) StartUpdateCrl(*crlreader.CRLMetaInfo) error                  { return nil }
+func (p *nullProc) InsertRevokedCertificate(*crlreader.CRLEntry) error           { p.n++; return nil }
+func (p *nullProc) UpdateExtendedMetaInfo(*crlreader.ExtendedCRLMetaInfo) error  { return nil }
 func (p *nullProc) UpdateSignatureCertificate(*core.CertificateChainEntry) error { return nil }
 
 func cpuMs() int64 {
@@ -115,7 +115,7 @@ func childBatch(dir string, start int) {
 	root, _ := x509.ParseCertificate(rootDER)
 	in, _ := x509.ParseCertificate(intDER)
 	chains := core.NewCertificateChains([][]*x509.Certificate{{in, root}}, nil)
-	logger := zap.NewNop()
+	logger := l2.DebugLogger()
 	work := filepath.Join(dir, "work")
 	_ = os.MkdirAll(work, 0755)
 	out, _ := os.OpenFile(filepath.Join(dir, "results.jsonl"), os.O_CREATE|os.O_APPEND|os.O_WRONLY, 0644)
@@ -208,7 +208,7 @@ func childSurvive(dir string, start int) {
 		StorageTypeParsed: config.Memory, UpdateIntervalParsed: 100 * time.Millisecond,
 		CDPConfig: &config.CDPConfig{CRLFetchModeParsed: config.CRLFetchModeActively}}
 	checker := &crl.CRLRevocationChecker{}
-	if err := checker.Provision(cfg, zap.NewNop()); err != nil {
+	if err := checker.Provision(cfg, l2.DebugLogger()); err != nil {
 		fmt.Println("child: provision", err)
 		os.Exit(3)
 	}
@@ -241,7 +241,7 @@ func childSurvive(dir string, start int) {
 		if inp.Idx%25 == 24 {
 			_ = checker.Cleanup()
 			checker = &crl.CRLRevocationChecker{}
-			if err := checker.Provision(cfg, zap.NewNop()); err != nil {
+			if err := checker.Provision(cfg, l2.DebugLogger()); err != nil {
 				fmt.Println("child: re-provision", err)
 				os.Exit(3)
 			}
@@ -633,14 +633,26 @@ func buildCorpus(run *report.Run, rng *rand.Rand, root, in *pki.CA) (*corpus, []
 		c.add("crlnumber-hostile."+k, "signed CRL with CRL number value "+k, s.Build(in.Key).DER, false)
 	}
 	rdnVals := map[string][]byte{
-		"empty-seq":      der.Seq(),
-		"empty-set":      der.Seq(der.Set()),
-		"atv-no-value":   der.Seq(der.Set(der.Seq(der.OID("2.5.4.3")))),
-		"huge-value":     der.Name([]der.ATV{{"2.5.4.3", der.TagUTF8String, strings.Repeat("x", 70000)}}),
-		"over-limit":     der.Name([]der.ATV{{"2.5.4.3", der.TagUTF8String, strings.Repeat("y", 90000)}}),
-		"bad-utf8":       der.Seq(der.Set(der.Seq(der.OID("2.5.4.3"), der.TLV(der.TagUTF8String, []byte{0xff, 0xfe, 0xfd})))),
-		"nested-100":     func() []byte { b := []byte{}; for i := 0; i < 100; i++ { b = der.Seq(b) }; return b }(),
-		"many-rdns":      func() []byte { var p [][]byte; for i := 0; i < 3000; i++ { p = append(p, der.Set(der.Seq(der.OID("2.5.4.3"), der.Str(der.TagUTF8String, "a")))) }; return der.Seq(p...) }(),
+		"empty-seq":    der.Seq(),
+		"empty-set":    der.Seq(der.Set()),
+		"atv-no-value": der.Seq(der.Set(der.Seq(der.OID("2.5.4.3")))),
+		"huge-value":   der.Name([]der.ATV{{"2.5.4.3", der.TagUTF8String, strings.Repeat("x", 70000)}}),
+		"over-limit":   der.Name([]der.ATV{{"2.5.4.3", der.TagUTF8String, strings.Repeat("y", 90000)}}),
+		"bad-utf8":     der.Seq(der.Set(der.Seq(der.OID("2.5.4.3"), der.TLV(der.TagUTF8String, []byte{0xff, 0xfe, 0xfd})))),
+		"nested-100": func() []byte {
+			b := []byte{}
+			for i := 0; i < 100; i++ {
+				b = der.Seq(b)
+			}
+			return b
+		}(),
+		"many-rdns": func() []byte {
+			var p [][]byte
+			for i := 0; i < 3000; i++ {
+				p = append(p, der.Set(der.Seq(der.OID("2.5.4.3"), der.Str(der.TagUTF8String, "a"))))
+			}
+			return der.Seq(p...)
+		}(),
 		"value-is-seq":   der.Seq(der.Set(der.Seq(der.OID("2.5.4.3"), der.Seq(der.Null())))),
 		"oid-empty":      der.Seq(der.Set(der.Seq([]byte{0x06, 0x00}, der.Str(der.TagUTF8String, "a")))),
 		"not-a-sequence": der.Set(der.Seq(der.OID("2.5.4.3"), der.Str(der.TagUTF8String, "a"))),
